@@ -323,6 +323,13 @@ int read_pax_header(sqfs_istream_t *fp, sqfs_u64 entsize,
 				goto fail;
 			}
 
+			/*
+			  A sparse map record replaces the list. Do not keep
+			  appending to an entry of the one it has released.
+			 */
+			if (!strcmp(key, "GNU.sparse.map"))
+				sparse_last = NULL;
+
 			*set_by_pax |= field->flag;
 		} else if (!strcmp(key, "GNU.sparse.offset")) {
 			if (parse_uint(value, -1, &diff, 0, 0, &offset))
